@@ -26,6 +26,7 @@ PYVC_MODULES = [
     "contracts.constructors",
     "contracts.fermi_ops",
     "contracts.linalg_bonds",
+    "contracts.fuseinfo",
 ]
 
 BASE = [A_BUILTINS, A_INT, A_TERM, A_NUMPY, A_BOUNDED, A_USER]
